@@ -5,7 +5,7 @@ from vlib import Corr, Search, Failure
 
 ID = 'C23'
 LEVEL = 'proof'
-PROPS = ['Props/C23.v', 'Findings/C23.v']
+PROPS = ['Props/C23.v']
 from py2coq import containsorder
 GEN = [('Gen/ContainsOrder.v', containsorder.generate)]
 EXPLANATION = ('Two parts. (1) A Coq 8.16.1 proof, closed under the global context, of the pure lemma C23_batch_criteria: for every number of key '
@@ -407,7 +407,7 @@ LEVEL_TEXT = ('Machine-checked proof (Coq 8.16.1, closed) of the collection core
 LEVEL_NOTE = ('Proved over hand models (Model/C23Load.v, C23SetData.v, C23Scalar.v, C23Batch.v) for ONE owner and its many-to-many collection without concurrent '
               'writers; the tie is vm_compute correspondence: the model invariant holds on every recorded real SetData, every own-side operation reproduces the '
               'recorded result and next SetData (~800 steps quick, ~8000 thorough), the criteria AST equals the real one. One-to-many collections share the load / count / is_empty / '
-              'iteration model and have their own add / remove (item loaded; the recorded remove() double bookkeeping is refuted in Findings/C23.v); the reverse-side '
+              'iteration model and have their own add / remove (item loaded; remove() as repaired by /repo 11753a1); the reverse-side '
               'bookkeeping (db_reverse_add) enters only as a hypothesis; seeds and prefetch traversal order are covered only by the five-regime differential runs on SQLite.')
 TECHNIQUE = 'Coq proof of the pure batch-criteria lemma (hand model, vm_compute structural tie, SQLite semantic validation) + five-regime differential execution of generated programs'
 DESIGN_REF = 'DESIGN.md section 5, C23'
